@@ -18,7 +18,8 @@ Linked(r)    == \A i \in 1 .. Len(r.nodes) : LET n == r.nodes[i] IN
                    /\ (Nx(n) > 0 => Pv(r.nodes[Nx(n)]) = i)            \* next.prev = self
 Ordered(r)   == \A i \in 1 .. Len(r.nodes) : LET n == r.nodes[i] IN Nx(n) > 0 => St(r.nodes[Nx(n)]) >= St(n)
 Mated(r)     == \A i \in 1 .. Len(r.nodes) : LET n == r.nodes[i] IN Mt(n) # 0 => (Mt(n) > 0 /\ Mt(r.nodes[Mt(n)]) = i)
-TreeOK(r) == FiniteTree(r) /\ RootOK(r) /\ InSource(r) /\ Linked(r) /\ Ordered(r) /\ Mated(r)
+\* after a metadata update the text has changed: the engine either exposes no tree until the next parse, or one that describes the new text
+TreeOK(r) == (r.when = "update" /\ r.nodes = <<>>) \/ (FiniteTree(r) /\ RootOK(r) /\ InSource(r) /\ Linked(r) /\ Ordered(r) /\ Mated(r))
 TNext == /\ l <= Len(Tr) /\ l' = l + 1
          /\ LET r == Tr[l] IN IF r.e = "tree" THEN TreeOK(r) ELSE r.e = "reset"
 TraceAccepted == TLCGet("stats").diameter = Len(Tr) + 1
